@@ -539,3 +539,62 @@ Proof.
 Qed.
 
 End Main.
+
+From Coq Require Import ZifyNat.
+Ltac Zify.zify_post_hook ::= Z.div_mod_to_equations.
+
+Lemma plan_blocks_In B (HB : 0 < B) (s : st) dev k : In k (plan_blocks B s dev) ->
+  exists c, In c (int_slice_diff dev (get_enabled_uplink_channel_indices s)) /\ Z.quot c B = k.
+Proof.
+  unfold plan_blocks. set (diff := int_slice_diff dev (get_enabled_uplink_channel_indices s)).
+  intros Hk. assert (Hk' : In k (cntls B (-1) (sort_ints diff))).
+  { destruct diff; [destruct Hk|]. destruct (filter _ _); [destruct Hk|exact Hk]. }
+  apply cntls_sound in Hk' as [c [Hc E]]. rewrite sort_ints_In in Hc. eauto.
+Qed.
+
+(* every payload fits the LinkADRReq wire format when the plan has at most 128 channels *)
+Theorem generic_encodable (s : st) dev :
+  zlen (up s) <= 128 -> (forall c, In c dev -> 0 <= c < 128) ->
+  exists pls, plan_generic 16 s dev = Ok pls /\ forallb encodable pls = true.
+Proof.
+  intros Hn Hd. eexists. split; [apply plan_generic_blocks; [lia|]; intros c Hc; apply Hd in Hc; lia|].
+  apply forallb_forall. intros p Hp. apply in_map_iff in Hp as [k [<- Hk]].
+  apply plan_blocks_In in Hk as [c [Hc E]]; [|lia].
+  assert (R : 0 <= c < 128).
+  { apply diff_In in Hc as [[H _]|[H _]]; [auto|]. apply enabled_In, en_b_range in H. lia. }
+  rewrite Z.quot_div_nonneg in E by lia.
+  unfold encodable, mk_payload. cbn [p_dr p_txp p_nbrep p_cntl p_mask]. rewrite wmask_length.
+  change (Z.to_nat 16 =? 16)%nat with true. lia.
+Qed.
+
+(* the target list is strictly ascending (hence duplicate-free) *)
+Lemma zrange_from_sorted k n : StronglySorted Z.lt (zrange_from k n).
+Proof.
+  revert k; induction n as [|n IH]; intros k; [constructor|].
+  rewrite zrange_from_S. constructor; [apply IH|].
+  apply Forall_forall. intros i Hi. apply zrange_from_In in Hi. lia.
+Qed.
+
+Lemma filter_sorted (p : Z -> bool) l : StronglySorted Z.lt l -> StronglySorted Z.lt (filter p l).
+Proof.
+  induction 1 as [|a l S IH Ha]; cbn [filter]; [constructor|].
+  destruct (p a); [|exact IH]. constructor; [exact IH|].
+  apply Forall_forall. intros x Hx. apply filter_In in Hx as [Hx _]. rewrite Forall_forall in Ha. auto.
+Qed.
+
+Theorem target_sorted (s : st) dev : StronglySorted Z.lt (target s dev).
+Proof. rewrite target_filter. apply filter_sorted, zrange_from_sorted. Qed.
+
+(* membership in the target, in terms of the index lists the band reports *)
+Theorem target_spec (s : st) dev i :
+  In i (target s dev) <->
+  In i (get_enabled_uplink_channel_indices s) /\
+  (In i (get_standard_uplink_channel_indices s) \/ In i dev).
+Proof.
+  rewrite target_In, enabled_In. unfold want. rewrite andb_true_iff, orb_true_iff, zmem_In.
+  unfold get_standard_uplink_channel_indices. rewrite indices_where_In, Z.sub_0_r.
+  split; intros [E H]; split; auto; pose proof (en_b_range _ _ E) as R;
+    destruct (chan_at_some _ _ R) as [c [E1 E2]]; unfold cu_b in *; rewrite ?E1 in *.
+  - destruct H as [H|H]; [left|now right]. split; [lia|]. exists c. auto.
+  - destruct H as [[_ [c' [E3 H]]]|H]; [left|now right]. congruence.
+Qed.
